@@ -4,6 +4,8 @@
 Three parts (kept apart in the evidence):
   THEOREM      comparators of StableSet/StableMap translated from the C++ text on every run + container/sort/UnstableMap theorems
                (lean/GateryModel/Properties/C10.lean)
+  AUDIT        tools/audit_statics.py: every function-local static / namespace-scope / class-static mutable variable in source/gatery vs the
+               reviewed list audit/static_state_sites.json (process-global state = results depending on what ran before in the process)
   AUDIT        tools/audit_unordered.py: every iteration over an address-ordered container / anyOrder() / non-stable sort / ordering
                operator in source/gatery/{hlim,export,simulation,frontend,utils} vs the reviewed list audit/unordered_sites.json
   EXPLORATION  harness/c10.cpp: every generated design built in >= 4 child processes under different heap layouts (ASLR on/off,
@@ -18,6 +20,7 @@ sys.path.insert(0, os.path.join(os.path.dirname(os.path.abspath(__file__)), ".."
 import vlib
 import translate_stablecompare
 import audit_unordered
+import audit_statics
 
 PROP = "C10"
 audit_info = {}
@@ -26,6 +29,15 @@ audit_info = {}
 def audit_step():
     ok, msg, info = audit_unordered.run()
     audit_info.update(info)
+    return ok, msg
+
+
+statics_info = {}
+
+
+def statics_step():
+    ok, msg, info = audit_statics.run()
+    statics_info.update(info)
     return ok, msg
 
 
@@ -61,6 +73,8 @@ CFG = {
                      "public interface of UnstableSet/UnstableMap are checked textually)",
                      "std::set/std::map/std::sort modelled by their contracts (libstdc++'s red-black tree / introsort are not modelled)",
                      "tools/audit_unordered.py (regex scanner; name based over-approximation) + the human review in audit/unordered_sites.json",
+                     "tools/audit_statics.py (regex/brace scanner for function-local statics, namespace-scope and class-static mutable variables in all of "
+                     "source/gatery) + the human review in audit/static_state_sites.json",
                      "harness/c10.cpp + c10_alloc.h + c10_shim.c + Driver/C10.lean line protocol; harness/designgen.h"],
 }
 
@@ -76,7 +90,7 @@ def main():
     chk.log("gatery built")
     # ---- theorem part + audit (both are ties to the source text; either failing breaks the proof stage)
     info = vlib.lean_proof_stage(chk, CFG["lean_modules"], CFG["prop_file"], CFG["prop_module"], exe=CFG["exe"],
-                                 gen_steps=[translate_stablecompare.run, audit_step, shim_step])
+                                 gen_steps=[translate_stablecompare.run, audit_step, statics_step, shim_step])
     proof_broken = list(info["failed"])
     if proof_broken:
         chk.log("PROOF/AUDIT STAGE BROKEN: " + " || ".join(proof_broken)[:2500])
@@ -85,7 +99,7 @@ def main():
             ok, _ = vlib.lake_build([CFG["exe"]])
             chk.log("driver rebuilt from the committed translation: %s" % ok)
     else:
-        chk.log("theorems checked: %d, axioms clean; audit: %s sites all reviewed" % (len(info["theorems"]), audit_info.get("sites_found")))
+        chk.log("theorems checked: %d, axioms clean; audit: %s unordered-iteration sites + %s static-state sites, all reviewed" % (len(info["theorems"]), audit_info.get("sites_found"), statics_info.get("sites_found")))
     for s in audit_info.get("order_sensitive", []):
         chk.log("audit: reviewed as ORDER-SENSITIVE (finding, reproduced dynamically): " + s)
     if a.tier == "thorough" and not proof_broken:
@@ -157,7 +171,7 @@ def main():
     if broken and not unknown():
         what = []
         if proof_broken:
-            what.append({"theorems_translator_or_audit_no_longer_check": proof_broken, "audit_problems": audit_info.get("problems", []),
+            what.append({"theorems_translator_or_audit_no_longer_check": proof_broken, "audit_problems": audit_info.get("problems", []) + statics_info.get("problems", []),
                          "build_log_tail": info.get("build_log_tail", "")})
         if all_diffs:
             tag, dmsg = all_diffs[0]
@@ -188,6 +202,7 @@ def main():
                         "and id-sorted; std::sort with a stable comparator is a function of the ids; UnstableSet/Map lookup interface is observationally address-free",
         "part_audit": {k: audit_info.get(k) for k in ("files_scanned", "sites_found", "sites_reviewed", "categories", "order_sensitive", "problems",
                                                       "address_ordered_container_names")},
+        "part_audit_static_state": {k: statics_info.get(k) for k in ("files_scanned", "sites_found", "sites_reviewed", "categories", "relevant", "problems")},
         "part_exploration": {"streams": [{"tag": t, "args": s.args, "summary": s.summary, "diffs": len(s.diffs), "propfails": len(s.fails)} for t, s in streams],
                              "totals": total},
         "evaluations": int(total.get("ops", 0) or 0),
@@ -195,7 +210,8 @@ def main():
                                    + hist.get("comparator_calls", 0)),
         "rule": "design stream: designs from harness/designgen.h (+ areas marked as partitions, names, comments), heap-allocated-state FSMs and (every 4th case) "
                 "registers / memory read ports enabled by 2..4-term conjunctions from nested ENIF scopes and `&` chains that post-processing rebuilds (backward retiming into a "
-                "memory read port, pipestage over movable registers, negative registers; unrelated allocations between construction steps); export single file / "
+                "memory read port, pipestage over movable registers, negative registers; unrelated allocations between construction steps) and (every 8th case) "
+                "literal-vs-literal comparisons with undefined bits in IF conditions / enables / mux selectors / outputs; export single file / "
                 "file per partition, default/GHDL/Quartus/Vivado project writers, with and without the test-bench recorder; each built 2x in each of >=4 (thorough 8) "
                 "child processes with different heap layouts + 3 node-order shuffles; non-trivial = every construction compared byte-for-byte with the reference "
                 "construction. container stream: op histories / comparator calls / std::sort / UnstableMap observations on real nodes, clocks, groups whose address "
